@@ -189,14 +189,13 @@ Inductive res (A : Type) := Ok (a : A) | Err | Panic.
 Arguments Ok {A} a. Arguments Err {A}. Arguments Panic {A}.
 
 (* ------------------------------------------------------------------ open_log_file *)
+(* the symlink calls are not subject to injected faults (they cannot fail the operation: errors are only reported) *)
 Definition do_symlink (c : config) (w : world) (target : bytes) : world :=
   if c_symlink c then
     let w1 := match wlink w with
-              | Some _ => let '(flt, w') := tick w in if flt then report ESymlink w' else effect_link w' None
+              | Some _ => effect_link w None
               | None => w end in
-    let '(flt, w2) := tick w1 in
-    if flt then report ESymlink w2
-    else match wlink w2 with Some _ => report ESymlink w2 | None => effect_link w2 (Some target) end
+    match wlink w1 with Some _ => report ESymlink w1 | None => effect_link w1 (Some target) end
   else w.
 
 Definition open_log_file (c : config) (w : world) (o_infix : option bytes) : res (writer * bytes) * world :=
@@ -219,7 +218,8 @@ Definition set_gz (f : fs) (i : nat) (state : N) (d : bytes) : fs :=
   {| names := names f;
      inodes := upd (inodes f) i {| fdata := d; fgz := state; fborn := fborn (inode f i); fdir := false |} |}.
 
-(* compress one file: create .gz, open the original, copy, finish, remove the original *)
+(* compress one file: create .gz, open the original, copy, finish, remove the original.
+   When a step after the creation fails, the encoder is dropped, which finishes the (empty) gzip stream *)
 Definition compress_file (w : world) (n : bytes) : bool * world :=
   let g := gz_name n in
   let '(flt1, w1) := tick w in
@@ -227,17 +227,18 @@ Definition compress_file (w : world) (n : bytes) : bool * world :=
   let now := wnow w1 in
   let ino := snd (open_trunc (wfs w1) g 2 now) in
   let w2 := effect w1 (fun f => fst (open_trunc f g 2 now)) in     (* File::create: an empty file named *.gz *)
+  let dropped w' := effect w' (fun f => set_gz f ino 1 []) in
   let '(flt2, w3) := tick w2 in                                        (* File::open(original) *)
-  if flt2 then (false, w3) else
+  if flt2 then (false, dropped w3) else
   match lookup (wfs w3) n with
-  | None => (false, w3)
+  | None => (false, dropped w3)
   | Some src =>
     let data := content (wfs w3) src in
     let '(flt3, w4) := tick w3 in                                      (* io::copy *)
-    if flt3 then (false, w4) else
+    if flt3 then (false, dropped w4) else
     let w5 := effect w4 (fun f => f) in
     let '(flt4, w6) := tick w5 in                                      (* finish *)
-    if flt4 then (false, w6) else
+    if flt4 then (false, dropped w6) else
     let w7 := effect w6 (fun f => set_gz f ino 1 data) in
     p_remove w7 n
   end.
@@ -266,8 +267,8 @@ Definition cleanup_impl (c : config) (w : world) (k : cleanup) (flt : infix_filt
   | _ =>
     let '(ll, cl) := match k with KLog a => (a, O) | KGz b => (O, b) | KLogGz a b => (a, b) | KNever => (O, O) end in
     let ll := if direct && Nat.eqb ll 0 then 1%nat else ll in
-    let '(fl, w1) := tick w in                                        (* read_dir(..).unwrap() *)
-    if fl then (Panic, w1) else
+    let '(fl, w1) := tick w in                                        (* read_dir(..)? *)
+    if fl then (Err, w1) else
     match list_log_gz (woff w1) (c_spec c) (fixed_of c w1) (wfs w1) flt with
     | None => (Panic, w1)
     | Some files => let '(ok, w2) := cleanup_loop w1 files 0 ll (ll + cl) in
@@ -292,10 +293,10 @@ Definition cleanup_or_queue (c : config) (w : world) (bg : bool) (k : cleanup) (
   else cleanup_impl c w k flt direct.
 
 (* ------------------------------------------------------------------ naming helpers *)
-(* the listing functions call read_dir(..).unwrap(): one oracle entry, a fault is a panic *)
+(* the listing functions call read_dir(..)?: one oracle entry, a fault is an error that the caller hands on *)
 Definition with_listing {A} (w : world) (g : world -> option A) : res A * world :=
   let '(fl, w1) := tick w in
-  if fl then (Panic, w1) else
+  if fl then (Err, w1) else
   match g w1 with Some a => (Ok a, w1) | None => (Panic, w1) end.
 
 (* numbers::index_for_rcurrent *)
@@ -327,9 +328,9 @@ Definition index_for_rcurrent (c : config) (w : world) (o_idx : option N) (rotat
 (* collision_free_infix_for_rotated_file: two directory listings *)
 Definition collision_free (c : config) (w : world) (infix : bytes) : res bytes * world :=
   let '(fl1, w1) := tick w in
-  if fl1 then (Panic, w1) else
+  if fl1 then (Err, w1) else
   let '(fl2, w2) := tick w1 in
-  if fl2 then (Panic, w2) else
+  if fl2 then (Err, w2) else
   match collision_free_infix (woff w2) (c_spec c) (fixed_of c w2) (wfs w2) infix with
   | Some i => (Ok i, w2)
   | None => (Panic, w2)
